@@ -7,6 +7,9 @@ baseline = json.load(open('/root/.vp/BASELINE.json'))['cmd'] if os.path.exists('
 SIM = "deterministic simulation with fault injection (seeded schedules over real olric+memberlist+redcon+go-redis in one synctest bubble)"
 NOTE = "Trusts the simulator seams (simnet, simsync, fake clock) and that the mechanical source rewrite preserves olric's semantics; 1 P per run; sampling."
 claimed = {
+ "C13": dict(level="exploration", design="DESIGN.md §8 C13",
+   text="Seeded search over membership histories (join, graceful leave, crash with reset or silence, restart under the same address, coordinator departure) with gossip loss/duplication; after a bounded stabilisation wait every member's own view, CLUSTER.ROUTINGTABLE, CLUSTER.MEMBERS, STATS and a ClusterClient table are validated for agreement, ownership validity, load bound and coordinator identity; exceeding the bound is a liveness violation.",
+   note=NOTE, technique=SIM + "; routing-table invariants after bounded re-stabilisation"),
  "C04": dict(level="exploration", design="DESIGN.md §8 C04",
    text="Seeded search: sequential chains of mutating operations with every option combination through random entry points, concurrent chains on neighbouring keys, background eviction/compaction running; after every acknowledged op every stored copy is read with DM.GETENTRY [RC] on every member and compared (value, ttl, timestamp, presence).",
    note=NOTE, technique=SIM + "; copy-equality invariant after every acknowledged op"),
